@@ -199,7 +199,23 @@ fn plant(src: &mut Src) -> Planted {
         ("sort_by(`[[1], [2]]`, &map(&type(@), @)) | nope(@)", "sort_by(", "InvalidReturnType"),
         ("map(&sort_by(@, &to_string(abs(@))), `[[2, 1]]`) | sort_by(@, &to_array(@))", "sort_by(@, &to_array", "InvalidReturnType"),
     ];
-    let (ftext, marker, kind) = faults[src.below(faults.len())];
+    // a by-function whose reference runs a random chain of *successful* steps (slices, indexes
+    // back into arrays, projections, nested calls and by-functions) on each element and
+    // then hands back an array: the failing call is the outer by-function
+    let generated: String;
+    let (ftext, marker, kind): (&str, &str, &str) = if src.chance(60) {
+        let f = *src.pick(&["sort_by", "max_by", "min_by"]);
+        let steps = ["[1:]", "[::-1]", "[::2]", "[:5:1]", "[-3:]", "[*]", "[]", "[?@ >= `0`]", " | @", " | sort(@)", " | reverse(@)", " | map(&abs(@), @)", " | sort_by(@, &abs(@))", " | [@, @][0]", " | not_null(@)", "[1:][::-2]", " | to_array(@)"];
+        let mut body = String::from("@");
+        for _ in 0..src.below(5) {
+            body.push_str(*src.pick(&steps));
+        }
+        let arr = *src.pick(&["`[[3, 1, 2], [2, 5]]`", "`[[1], [2], [3]]`", "`[[4, 4, 4, 4, 4, 4, 4]]`", "`[[], [1]]`"]);
+        generated = format!("{}({}, &{})", f, arr, body);
+        (generated.as_str(), if f == "sort_by" { "sort_by(" } else if f == "max_by" { "max_by(" } else { "min_by(" }, "InvalidReturnType")
+    } else {
+        faults[src.below(faults.len())]
+    };
     let at = ftext.find(marker).expect("marker");
     // for calls the marker starts with the function name: the position is its first '('
     let paren = at + marker.find('(').unwrap_or(marker.len() - 1);
